@@ -38,6 +38,10 @@
                 | EWaitReturned | ENewGameReturned | EPonderHitReturned
                 | EClearHash <refused:bool>   (* ClearHash returned; refused = "Can't clear hash while searching." *)
                 | EResizeHash <refused:bool>  (* ResizeCache returned; refused = "Can't resize hash while searching." *)
+                | ECall <i:nat>            (* the controller is ABOUT TO issue call number i (0-based index into the call
+                                              list), logged immediately BEFORE the call - OPTIONAL but recommended: without
+                                              it a result that arrives before the stop was even issued cannot be told from
+                                              one that arrives during the stop *)
       A trace is a Coq list of events in real-time order, oldest first:   [EStartReturned 1; EReadyOk; EStopReturned; ...]
       Events of controller calls may be logged by the harness at any time after the call returned and before the
       next call is issued (the model emits them in a separate "return" step); EResult / EReadyOk must be logged
@@ -85,7 +89,8 @@ Inductive call :=
 Inductive event :=
 | EStartReturned (n : nat) | EStartRejected | EStartDone | EResult (n : nat) | EStopReturned | EReadyOk
 | EIsSearching (b : bool) | ETimerFired (n : nat)
-| EWaitReturned | ENewGameReturned | EPonderHitReturned | EClearHash (refused : bool) | EResizeHash (refused : bool).
+| EWaitReturned | ENewGameReturned | EPonderHitReturned | EClearHash (refused : bool) | EResizeHash (refused : bool)
+| ECall (i : nat).
 
 (* lines handed to u.OutIo *)
 Inductive line := LReady | LBest (n : nat) | LInfo.
@@ -170,8 +175,8 @@ Inductive spc :=
 | SHasRes1                   (* 381 hasResult = true *)
 | SEndPtr                    (* 386 read s.stopFlag *)
 | SEndStore (p : nat)        (* 386 .Store(true) *)
-| SRes0 | SRes1 | SRes2 | SRes3 (k : nat) | SRes4       (* 390 sendResult -> uci.go:163-171, 655-659 *)
-| SRelRun.                   (* 277 deferred Release isRunning *)
+| SRelRun                    (* run, end: released = true; s.isRunning.Release(1)  (before the result is sent) *)
+| SRes0 | SRes1 | SRes2 | SRes3 (k : nat) | SRes4.      (* sendResult -> uci.go:163-171, 655-659; then the goroutine ends *)
 
 Inductive tpc :=
 | TmStart                    (* 719 timerStart := time.Now() *)
@@ -199,6 +204,28 @@ Record tthread := mkT {
   ttl : nat                  (* loadTimeLimit() result *)
 }.
 
+(** ** The state (record and its field setters are generated text; no logic in this block)
+   cfgTT, cfgBook, cfgBookOk : config.Settings.Search.UseTT / UseBook, and whether book loading succeeds (constants)
+   calls / done              : remaining calls of the controller (head = call in progress) / ghost: completed calls, newest first
+   cpcv, cidx                : controller pc / ghost: number of completed calls = index of the current call
+   runFree, initFree, outFree: s.isRunning, s.initSemaphore (semaphore.Weighted, size 1) and u.sendLock are free
+   panicked                  : a Release/Unlock of a free semaphore/mutex or a nil dereference happened (never, see Inv)
+   toks, stopPtr             : heap of stop tokens (index = token id; None = false, Some r = true, first set by r) /
+                               the pointer field s.stopFlag.  Token 0 is created by NewSearch; the token created by
+                               the n-th accepted StartSearch has id n
+   timeLimit, extraTime      : s.timeLimit, s.extraTime in clock ticks
+   limitsVar, curPos         : s.searchLimits (None = nil) / s.currentPosition (id of the start that wrote it)
+   hasResult, lastResult     : s.hasResult, s.lastSearchResult (id of the search that wrote it)
+   tt, book, hist            : s.tt != nil, s.book != nil, generation counter of s.history
+   outBuf, outErr, outLines  : bufio.Writer u.OutIo: buffered lines, sticky error / ghost: lines handed to the OS
+   clock                     : abstract monotone time
+   srch                      : search goroutines that still own isRunning (pcs SHasRes0 .. SRelRun)
+   senders                   : search goroutines after their Release of isRunning, inside sendResult (pcs SRes0 .. SRes4);
+                               the same goroutine record moves from srch to senders in its SRelRun step
+   timers, ntimers           : live timer goroutines, number of timers created so far
+   starts                    : ghost: accepted starts, newest first: (id, call index, limits)
+   results                   : ghost: SendResult calls, newest first: (id of the search goroutine, why it ended)
+   trace                     : ghost: observable events, newest first *)
 Record state := mkState {
   cfgTT : bool;
   cfgBook : bool;
@@ -227,6 +254,7 @@ Record state := mkState {
   outLines : list line;
   clock : nat;
   srch : list sthread;
+  senders : list sthread;
   timers : list tthread;
   ntimers : nat;
   starts : list (nat * nat * limits);
@@ -235,69 +263,71 @@ Record state := mkState {
 }.
 
 Definition set_cfgTT (v : bool) (s : state) : state :=
-  {| cfgTT := v; cfgBook := cfgBook s; cfgBookOk := cfgBookOk s; calls := calls s; done := done s; cpcv := cpcv s; cidx := cidx s; runFree := runFree s; initFree := initFree s; panicked := panicked s; toks := toks s; stopPtr := stopPtr s; timeLimit := timeLimit s; extraTime := extraTime s; limitsVar := limitsVar s; curPos := curPos s; hasResult := hasResult s; lastResult := lastResult s; tt := tt s; book := book s; hist := hist s; outFree := outFree s; outBuf := outBuf s; outErr := outErr s; outLines := outLines s; clock := clock s; srch := srch s; timers := timers s; ntimers := ntimers s; starts := starts s; results := results s; trace := trace s |}.
+  {| cfgTT := v; cfgBook := cfgBook s; cfgBookOk := cfgBookOk s; calls := calls s; done := done s; cpcv := cpcv s; cidx := cidx s; runFree := runFree s; initFree := initFree s; panicked := panicked s; toks := toks s; stopPtr := stopPtr s; timeLimit := timeLimit s; extraTime := extraTime s; limitsVar := limitsVar s; curPos := curPos s; hasResult := hasResult s; lastResult := lastResult s; tt := tt s; book := book s; hist := hist s; outFree := outFree s; outBuf := outBuf s; outErr := outErr s; outLines := outLines s; clock := clock s; srch := srch s; senders := senders s; timers := timers s; ntimers := ntimers s; starts := starts s; results := results s; trace := trace s |}.
 Definition set_cfgBook (v : bool) (s : state) : state :=
-  {| cfgTT := cfgTT s; cfgBook := v; cfgBookOk := cfgBookOk s; calls := calls s; done := done s; cpcv := cpcv s; cidx := cidx s; runFree := runFree s; initFree := initFree s; panicked := panicked s; toks := toks s; stopPtr := stopPtr s; timeLimit := timeLimit s; extraTime := extraTime s; limitsVar := limitsVar s; curPos := curPos s; hasResult := hasResult s; lastResult := lastResult s; tt := tt s; book := book s; hist := hist s; outFree := outFree s; outBuf := outBuf s; outErr := outErr s; outLines := outLines s; clock := clock s; srch := srch s; timers := timers s; ntimers := ntimers s; starts := starts s; results := results s; trace := trace s |}.
+  {| cfgTT := cfgTT s; cfgBook := v; cfgBookOk := cfgBookOk s; calls := calls s; done := done s; cpcv := cpcv s; cidx := cidx s; runFree := runFree s; initFree := initFree s; panicked := panicked s; toks := toks s; stopPtr := stopPtr s; timeLimit := timeLimit s; extraTime := extraTime s; limitsVar := limitsVar s; curPos := curPos s; hasResult := hasResult s; lastResult := lastResult s; tt := tt s; book := book s; hist := hist s; outFree := outFree s; outBuf := outBuf s; outErr := outErr s; outLines := outLines s; clock := clock s; srch := srch s; senders := senders s; timers := timers s; ntimers := ntimers s; starts := starts s; results := results s; trace := trace s |}.
 Definition set_cfgBookOk (v : bool) (s : state) : state :=
-  {| cfgTT := cfgTT s; cfgBook := cfgBook s; cfgBookOk := v; calls := calls s; done := done s; cpcv := cpcv s; cidx := cidx s; runFree := runFree s; initFree := initFree s; panicked := panicked s; toks := toks s; stopPtr := stopPtr s; timeLimit := timeLimit s; extraTime := extraTime s; limitsVar := limitsVar s; curPos := curPos s; hasResult := hasResult s; lastResult := lastResult s; tt := tt s; book := book s; hist := hist s; outFree := outFree s; outBuf := outBuf s; outErr := outErr s; outLines := outLines s; clock := clock s; srch := srch s; timers := timers s; ntimers := ntimers s; starts := starts s; results := results s; trace := trace s |}.
+  {| cfgTT := cfgTT s; cfgBook := cfgBook s; cfgBookOk := v; calls := calls s; done := done s; cpcv := cpcv s; cidx := cidx s; runFree := runFree s; initFree := initFree s; panicked := panicked s; toks := toks s; stopPtr := stopPtr s; timeLimit := timeLimit s; extraTime := extraTime s; limitsVar := limitsVar s; curPos := curPos s; hasResult := hasResult s; lastResult := lastResult s; tt := tt s; book := book s; hist := hist s; outFree := outFree s; outBuf := outBuf s; outErr := outErr s; outLines := outLines s; clock := clock s; srch := srch s; senders := senders s; timers := timers s; ntimers := ntimers s; starts := starts s; results := results s; trace := trace s |}.
 Definition set_calls (v : list call) (s : state) : state :=
-  {| cfgTT := cfgTT s; cfgBook := cfgBook s; cfgBookOk := cfgBookOk s; calls := v; done := done s; cpcv := cpcv s; cidx := cidx s; runFree := runFree s; initFree := initFree s; panicked := panicked s; toks := toks s; stopPtr := stopPtr s; timeLimit := timeLimit s; extraTime := extraTime s; limitsVar := limitsVar s; curPos := curPos s; hasResult := hasResult s; lastResult := lastResult s; tt := tt s; book := book s; hist := hist s; outFree := outFree s; outBuf := outBuf s; outErr := outErr s; outLines := outLines s; clock := clock s; srch := srch s; timers := timers s; ntimers := ntimers s; starts := starts s; results := results s; trace := trace s |}.
+  {| cfgTT := cfgTT s; cfgBook := cfgBook s; cfgBookOk := cfgBookOk s; calls := v; done := done s; cpcv := cpcv s; cidx := cidx s; runFree := runFree s; initFree := initFree s; panicked := panicked s; toks := toks s; stopPtr := stopPtr s; timeLimit := timeLimit s; extraTime := extraTime s; limitsVar := limitsVar s; curPos := curPos s; hasResult := hasResult s; lastResult := lastResult s; tt := tt s; book := book s; hist := hist s; outFree := outFree s; outBuf := outBuf s; outErr := outErr s; outLines := outLines s; clock := clock s; srch := srch s; senders := senders s; timers := timers s; ntimers := ntimers s; starts := starts s; results := results s; trace := trace s |}.
 Definition set_done (v : list call) (s : state) : state :=
-  {| cfgTT := cfgTT s; cfgBook := cfgBook s; cfgBookOk := cfgBookOk s; calls := calls s; done := v; cpcv := cpcv s; cidx := cidx s; runFree := runFree s; initFree := initFree s; panicked := panicked s; toks := toks s; stopPtr := stopPtr s; timeLimit := timeLimit s; extraTime := extraTime s; limitsVar := limitsVar s; curPos := curPos s; hasResult := hasResult s; lastResult := lastResult s; tt := tt s; book := book s; hist := hist s; outFree := outFree s; outBuf := outBuf s; outErr := outErr s; outLines := outLines s; clock := clock s; srch := srch s; timers := timers s; ntimers := ntimers s; starts := starts s; results := results s; trace := trace s |}.
+  {| cfgTT := cfgTT s; cfgBook := cfgBook s; cfgBookOk := cfgBookOk s; calls := calls s; done := v; cpcv := cpcv s; cidx := cidx s; runFree := runFree s; initFree := initFree s; panicked := panicked s; toks := toks s; stopPtr := stopPtr s; timeLimit := timeLimit s; extraTime := extraTime s; limitsVar := limitsVar s; curPos := curPos s; hasResult := hasResult s; lastResult := lastResult s; tt := tt s; book := book s; hist := hist s; outFree := outFree s; outBuf := outBuf s; outErr := outErr s; outLines := outLines s; clock := clock s; srch := srch s; senders := senders s; timers := timers s; ntimers := ntimers s; starts := starts s; results := results s; trace := trace s |}.
 Definition set_cpcv (v : cpc) (s : state) : state :=
-  {| cfgTT := cfgTT s; cfgBook := cfgBook s; cfgBookOk := cfgBookOk s; calls := calls s; done := done s; cpcv := v; cidx := cidx s; runFree := runFree s; initFree := initFree s; panicked := panicked s; toks := toks s; stopPtr := stopPtr s; timeLimit := timeLimit s; extraTime := extraTime s; limitsVar := limitsVar s; curPos := curPos s; hasResult := hasResult s; lastResult := lastResult s; tt := tt s; book := book s; hist := hist s; outFree := outFree s; outBuf := outBuf s; outErr := outErr s; outLines := outLines s; clock := clock s; srch := srch s; timers := timers s; ntimers := ntimers s; starts := starts s; results := results s; trace := trace s |}.
+  {| cfgTT := cfgTT s; cfgBook := cfgBook s; cfgBookOk := cfgBookOk s; calls := calls s; done := done s; cpcv := v; cidx := cidx s; runFree := runFree s; initFree := initFree s; panicked := panicked s; toks := toks s; stopPtr := stopPtr s; timeLimit := timeLimit s; extraTime := extraTime s; limitsVar := limitsVar s; curPos := curPos s; hasResult := hasResult s; lastResult := lastResult s; tt := tt s; book := book s; hist := hist s; outFree := outFree s; outBuf := outBuf s; outErr := outErr s; outLines := outLines s; clock := clock s; srch := srch s; senders := senders s; timers := timers s; ntimers := ntimers s; starts := starts s; results := results s; trace := trace s |}.
 Definition set_cidx (v : nat) (s : state) : state :=
-  {| cfgTT := cfgTT s; cfgBook := cfgBook s; cfgBookOk := cfgBookOk s; calls := calls s; done := done s; cpcv := cpcv s; cidx := v; runFree := runFree s; initFree := initFree s; panicked := panicked s; toks := toks s; stopPtr := stopPtr s; timeLimit := timeLimit s; extraTime := extraTime s; limitsVar := limitsVar s; curPos := curPos s; hasResult := hasResult s; lastResult := lastResult s; tt := tt s; book := book s; hist := hist s; outFree := outFree s; outBuf := outBuf s; outErr := outErr s; outLines := outLines s; clock := clock s; srch := srch s; timers := timers s; ntimers := ntimers s; starts := starts s; results := results s; trace := trace s |}.
+  {| cfgTT := cfgTT s; cfgBook := cfgBook s; cfgBookOk := cfgBookOk s; calls := calls s; done := done s; cpcv := cpcv s; cidx := v; runFree := runFree s; initFree := initFree s; panicked := panicked s; toks := toks s; stopPtr := stopPtr s; timeLimit := timeLimit s; extraTime := extraTime s; limitsVar := limitsVar s; curPos := curPos s; hasResult := hasResult s; lastResult := lastResult s; tt := tt s; book := book s; hist := hist s; outFree := outFree s; outBuf := outBuf s; outErr := outErr s; outLines := outLines s; clock := clock s; srch := srch s; senders := senders s; timers := timers s; ntimers := ntimers s; starts := starts s; results := results s; trace := trace s |}.
 Definition set_runFree (v : bool) (s : state) : state :=
-  {| cfgTT := cfgTT s; cfgBook := cfgBook s; cfgBookOk := cfgBookOk s; calls := calls s; done := done s; cpcv := cpcv s; cidx := cidx s; runFree := v; initFree := initFree s; panicked := panicked s; toks := toks s; stopPtr := stopPtr s; timeLimit := timeLimit s; extraTime := extraTime s; limitsVar := limitsVar s; curPos := curPos s; hasResult := hasResult s; lastResult := lastResult s; tt := tt s; book := book s; hist := hist s; outFree := outFree s; outBuf := outBuf s; outErr := outErr s; outLines := outLines s; clock := clock s; srch := srch s; timers := timers s; ntimers := ntimers s; starts := starts s; results := results s; trace := trace s |}.
+  {| cfgTT := cfgTT s; cfgBook := cfgBook s; cfgBookOk := cfgBookOk s; calls := calls s; done := done s; cpcv := cpcv s; cidx := cidx s; runFree := v; initFree := initFree s; panicked := panicked s; toks := toks s; stopPtr := stopPtr s; timeLimit := timeLimit s; extraTime := extraTime s; limitsVar := limitsVar s; curPos := curPos s; hasResult := hasResult s; lastResult := lastResult s; tt := tt s; book := book s; hist := hist s; outFree := outFree s; outBuf := outBuf s; outErr := outErr s; outLines := outLines s; clock := clock s; srch := srch s; senders := senders s; timers := timers s; ntimers := ntimers s; starts := starts s; results := results s; trace := trace s |}.
 Definition set_initFree (v : bool) (s : state) : state :=
-  {| cfgTT := cfgTT s; cfgBook := cfgBook s; cfgBookOk := cfgBookOk s; calls := calls s; done := done s; cpcv := cpcv s; cidx := cidx s; runFree := runFree s; initFree := v; panicked := panicked s; toks := toks s; stopPtr := stopPtr s; timeLimit := timeLimit s; extraTime := extraTime s; limitsVar := limitsVar s; curPos := curPos s; hasResult := hasResult s; lastResult := lastResult s; tt := tt s; book := book s; hist := hist s; outFree := outFree s; outBuf := outBuf s; outErr := outErr s; outLines := outLines s; clock := clock s; srch := srch s; timers := timers s; ntimers := ntimers s; starts := starts s; results := results s; trace := trace s |}.
+  {| cfgTT := cfgTT s; cfgBook := cfgBook s; cfgBookOk := cfgBookOk s; calls := calls s; done := done s; cpcv := cpcv s; cidx := cidx s; runFree := runFree s; initFree := v; panicked := panicked s; toks := toks s; stopPtr := stopPtr s; timeLimit := timeLimit s; extraTime := extraTime s; limitsVar := limitsVar s; curPos := curPos s; hasResult := hasResult s; lastResult := lastResult s; tt := tt s; book := book s; hist := hist s; outFree := outFree s; outBuf := outBuf s; outErr := outErr s; outLines := outLines s; clock := clock s; srch := srch s; senders := senders s; timers := timers s; ntimers := ntimers s; starts := starts s; results := results s; trace := trace s |}.
 Definition set_panicked (v : bool) (s : state) : state :=
-  {| cfgTT := cfgTT s; cfgBook := cfgBook s; cfgBookOk := cfgBookOk s; calls := calls s; done := done s; cpcv := cpcv s; cidx := cidx s; runFree := runFree s; initFree := initFree s; panicked := v; toks := toks s; stopPtr := stopPtr s; timeLimit := timeLimit s; extraTime := extraTime s; limitsVar := limitsVar s; curPos := curPos s; hasResult := hasResult s; lastResult := lastResult s; tt := tt s; book := book s; hist := hist s; outFree := outFree s; outBuf := outBuf s; outErr := outErr s; outLines := outLines s; clock := clock s; srch := srch s; timers := timers s; ntimers := ntimers s; starts := starts s; results := results s; trace := trace s |}.
+  {| cfgTT := cfgTT s; cfgBook := cfgBook s; cfgBookOk := cfgBookOk s; calls := calls s; done := done s; cpcv := cpcv s; cidx := cidx s; runFree := runFree s; initFree := initFree s; panicked := v; toks := toks s; stopPtr := stopPtr s; timeLimit := timeLimit s; extraTime := extraTime s; limitsVar := limitsVar s; curPos := curPos s; hasResult := hasResult s; lastResult := lastResult s; tt := tt s; book := book s; hist := hist s; outFree := outFree s; outBuf := outBuf s; outErr := outErr s; outLines := outLines s; clock := clock s; srch := srch s; senders := senders s; timers := timers s; ntimers := ntimers s; starts := starts s; results := results s; trace := trace s |}.
 Definition set_toks (v : list (option reason)) (s : state) : state :=
-  {| cfgTT := cfgTT s; cfgBook := cfgBook s; cfgBookOk := cfgBookOk s; calls := calls s; done := done s; cpcv := cpcv s; cidx := cidx s; runFree := runFree s; initFree := initFree s; panicked := panicked s; toks := v; stopPtr := stopPtr s; timeLimit := timeLimit s; extraTime := extraTime s; limitsVar := limitsVar s; curPos := curPos s; hasResult := hasResult s; lastResult := lastResult s; tt := tt s; book := book s; hist := hist s; outFree := outFree s; outBuf := outBuf s; outErr := outErr s; outLines := outLines s; clock := clock s; srch := srch s; timers := timers s; ntimers := ntimers s; starts := starts s; results := results s; trace := trace s |}.
+  {| cfgTT := cfgTT s; cfgBook := cfgBook s; cfgBookOk := cfgBookOk s; calls := calls s; done := done s; cpcv := cpcv s; cidx := cidx s; runFree := runFree s; initFree := initFree s; panicked := panicked s; toks := v; stopPtr := stopPtr s; timeLimit := timeLimit s; extraTime := extraTime s; limitsVar := limitsVar s; curPos := curPos s; hasResult := hasResult s; lastResult := lastResult s; tt := tt s; book := book s; hist := hist s; outFree := outFree s; outBuf := outBuf s; outErr := outErr s; outLines := outLines s; clock := clock s; srch := srch s; senders := senders s; timers := timers s; ntimers := ntimers s; starts := starts s; results := results s; trace := trace s |}.
 Definition set_stopPtr (v : nat) (s : state) : state :=
-  {| cfgTT := cfgTT s; cfgBook := cfgBook s; cfgBookOk := cfgBookOk s; calls := calls s; done := done s; cpcv := cpcv s; cidx := cidx s; runFree := runFree s; initFree := initFree s; panicked := panicked s; toks := toks s; stopPtr := v; timeLimit := timeLimit s; extraTime := extraTime s; limitsVar := limitsVar s; curPos := curPos s; hasResult := hasResult s; lastResult := lastResult s; tt := tt s; book := book s; hist := hist s; outFree := outFree s; outBuf := outBuf s; outErr := outErr s; outLines := outLines s; clock := clock s; srch := srch s; timers := timers s; ntimers := ntimers s; starts := starts s; results := results s; trace := trace s |}.
+  {| cfgTT := cfgTT s; cfgBook := cfgBook s; cfgBookOk := cfgBookOk s; calls := calls s; done := done s; cpcv := cpcv s; cidx := cidx s; runFree := runFree s; initFree := initFree s; panicked := panicked s; toks := toks s; stopPtr := v; timeLimit := timeLimit s; extraTime := extraTime s; limitsVar := limitsVar s; curPos := curPos s; hasResult := hasResult s; lastResult := lastResult s; tt := tt s; book := book s; hist := hist s; outFree := outFree s; outBuf := outBuf s; outErr := outErr s; outLines := outLines s; clock := clock s; srch := srch s; senders := senders s; timers := timers s; ntimers := ntimers s; starts := starts s; results := results s; trace := trace s |}.
 Definition set_timeLimit (v : nat) (s : state) : state :=
-  {| cfgTT := cfgTT s; cfgBook := cfgBook s; cfgBookOk := cfgBookOk s; calls := calls s; done := done s; cpcv := cpcv s; cidx := cidx s; runFree := runFree s; initFree := initFree s; panicked := panicked s; toks := toks s; stopPtr := stopPtr s; timeLimit := v; extraTime := extraTime s; limitsVar := limitsVar s; curPos := curPos s; hasResult := hasResult s; lastResult := lastResult s; tt := tt s; book := book s; hist := hist s; outFree := outFree s; outBuf := outBuf s; outErr := outErr s; outLines := outLines s; clock := clock s; srch := srch s; timers := timers s; ntimers := ntimers s; starts := starts s; results := results s; trace := trace s |}.
+  {| cfgTT := cfgTT s; cfgBook := cfgBook s; cfgBookOk := cfgBookOk s; calls := calls s; done := done s; cpcv := cpcv s; cidx := cidx s; runFree := runFree s; initFree := initFree s; panicked := panicked s; toks := toks s; stopPtr := stopPtr s; timeLimit := v; extraTime := extraTime s; limitsVar := limitsVar s; curPos := curPos s; hasResult := hasResult s; lastResult := lastResult s; tt := tt s; book := book s; hist := hist s; outFree := outFree s; outBuf := outBuf s; outErr := outErr s; outLines := outLines s; clock := clock s; srch := srch s; senders := senders s; timers := timers s; ntimers := ntimers s; starts := starts s; results := results s; trace := trace s |}.
 Definition set_extraTime (v : nat) (s : state) : state :=
-  {| cfgTT := cfgTT s; cfgBook := cfgBook s; cfgBookOk := cfgBookOk s; calls := calls s; done := done s; cpcv := cpcv s; cidx := cidx s; runFree := runFree s; initFree := initFree s; panicked := panicked s; toks := toks s; stopPtr := stopPtr s; timeLimit := timeLimit s; extraTime := v; limitsVar := limitsVar s; curPos := curPos s; hasResult := hasResult s; lastResult := lastResult s; tt := tt s; book := book s; hist := hist s; outFree := outFree s; outBuf := outBuf s; outErr := outErr s; outLines := outLines s; clock := clock s; srch := srch s; timers := timers s; ntimers := ntimers s; starts := starts s; results := results s; trace := trace s |}.
+  {| cfgTT := cfgTT s; cfgBook := cfgBook s; cfgBookOk := cfgBookOk s; calls := calls s; done := done s; cpcv := cpcv s; cidx := cidx s; runFree := runFree s; initFree := initFree s; panicked := panicked s; toks := toks s; stopPtr := stopPtr s; timeLimit := timeLimit s; extraTime := v; limitsVar := limitsVar s; curPos := curPos s; hasResult := hasResult s; lastResult := lastResult s; tt := tt s; book := book s; hist := hist s; outFree := outFree s; outBuf := outBuf s; outErr := outErr s; outLines := outLines s; clock := clock s; srch := srch s; senders := senders s; timers := timers s; ntimers := ntimers s; starts := starts s; results := results s; trace := trace s |}.
 Definition set_limitsVar (v : option limits) (s : state) : state :=
-  {| cfgTT := cfgTT s; cfgBook := cfgBook s; cfgBookOk := cfgBookOk s; calls := calls s; done := done s; cpcv := cpcv s; cidx := cidx s; runFree := runFree s; initFree := initFree s; panicked := panicked s; toks := toks s; stopPtr := stopPtr s; timeLimit := timeLimit s; extraTime := extraTime s; limitsVar := v; curPos := curPos s; hasResult := hasResult s; lastResult := lastResult s; tt := tt s; book := book s; hist := hist s; outFree := outFree s; outBuf := outBuf s; outErr := outErr s; outLines := outLines s; clock := clock s; srch := srch s; timers := timers s; ntimers := ntimers s; starts := starts s; results := results s; trace := trace s |}.
+  {| cfgTT := cfgTT s; cfgBook := cfgBook s; cfgBookOk := cfgBookOk s; calls := calls s; done := done s; cpcv := cpcv s; cidx := cidx s; runFree := runFree s; initFree := initFree s; panicked := panicked s; toks := toks s; stopPtr := stopPtr s; timeLimit := timeLimit s; extraTime := extraTime s; limitsVar := v; curPos := curPos s; hasResult := hasResult s; lastResult := lastResult s; tt := tt s; book := book s; hist := hist s; outFree := outFree s; outBuf := outBuf s; outErr := outErr s; outLines := outLines s; clock := clock s; srch := srch s; senders := senders s; timers := timers s; ntimers := ntimers s; starts := starts s; results := results s; trace := trace s |}.
 Definition set_curPos (v : nat) (s : state) : state :=
-  {| cfgTT := cfgTT s; cfgBook := cfgBook s; cfgBookOk := cfgBookOk s; calls := calls s; done := done s; cpcv := cpcv s; cidx := cidx s; runFree := runFree s; initFree := initFree s; panicked := panicked s; toks := toks s; stopPtr := stopPtr s; timeLimit := timeLimit s; extraTime := extraTime s; limitsVar := limitsVar s; curPos := v; hasResult := hasResult s; lastResult := lastResult s; tt := tt s; book := book s; hist := hist s; outFree := outFree s; outBuf := outBuf s; outErr := outErr s; outLines := outLines s; clock := clock s; srch := srch s; timers := timers s; ntimers := ntimers s; starts := starts s; results := results s; trace := trace s |}.
+  {| cfgTT := cfgTT s; cfgBook := cfgBook s; cfgBookOk := cfgBookOk s; calls := calls s; done := done s; cpcv := cpcv s; cidx := cidx s; runFree := runFree s; initFree := initFree s; panicked := panicked s; toks := toks s; stopPtr := stopPtr s; timeLimit := timeLimit s; extraTime := extraTime s; limitsVar := limitsVar s; curPos := v; hasResult := hasResult s; lastResult := lastResult s; tt := tt s; book := book s; hist := hist s; outFree := outFree s; outBuf := outBuf s; outErr := outErr s; outLines := outLines s; clock := clock s; srch := srch s; senders := senders s; timers := timers s; ntimers := ntimers s; starts := starts s; results := results s; trace := trace s |}.
 Definition set_hasResult (v : bool) (s : state) : state :=
-  {| cfgTT := cfgTT s; cfgBook := cfgBook s; cfgBookOk := cfgBookOk s; calls := calls s; done := done s; cpcv := cpcv s; cidx := cidx s; runFree := runFree s; initFree := initFree s; panicked := panicked s; toks := toks s; stopPtr := stopPtr s; timeLimit := timeLimit s; extraTime := extraTime s; limitsVar := limitsVar s; curPos := curPos s; hasResult := v; lastResult := lastResult s; tt := tt s; book := book s; hist := hist s; outFree := outFree s; outBuf := outBuf s; outErr := outErr s; outLines := outLines s; clock := clock s; srch := srch s; timers := timers s; ntimers := ntimers s; starts := starts s; results := results s; trace := trace s |}.
+  {| cfgTT := cfgTT s; cfgBook := cfgBook s; cfgBookOk := cfgBookOk s; calls := calls s; done := done s; cpcv := cpcv s; cidx := cidx s; runFree := runFree s; initFree := initFree s; panicked := panicked s; toks := toks s; stopPtr := stopPtr s; timeLimit := timeLimit s; extraTime := extraTime s; limitsVar := limitsVar s; curPos := curPos s; hasResult := v; lastResult := lastResult s; tt := tt s; book := book s; hist := hist s; outFree := outFree s; outBuf := outBuf s; outErr := outErr s; outLines := outLines s; clock := clock s; srch := srch s; senders := senders s; timers := timers s; ntimers := ntimers s; starts := starts s; results := results s; trace := trace s |}.
 Definition set_lastResult (v : nat) (s : state) : state :=
-  {| cfgTT := cfgTT s; cfgBook := cfgBook s; cfgBookOk := cfgBookOk s; calls := calls s; done := done s; cpcv := cpcv s; cidx := cidx s; runFree := runFree s; initFree := initFree s; panicked := panicked s; toks := toks s; stopPtr := stopPtr s; timeLimit := timeLimit s; extraTime := extraTime s; limitsVar := limitsVar s; curPos := curPos s; hasResult := hasResult s; lastResult := v; tt := tt s; book := book s; hist := hist s; outFree := outFree s; outBuf := outBuf s; outErr := outErr s; outLines := outLines s; clock := clock s; srch := srch s; timers := timers s; ntimers := ntimers s; starts := starts s; results := results s; trace := trace s |}.
+  {| cfgTT := cfgTT s; cfgBook := cfgBook s; cfgBookOk := cfgBookOk s; calls := calls s; done := done s; cpcv := cpcv s; cidx := cidx s; runFree := runFree s; initFree := initFree s; panicked := panicked s; toks := toks s; stopPtr := stopPtr s; timeLimit := timeLimit s; extraTime := extraTime s; limitsVar := limitsVar s; curPos := curPos s; hasResult := hasResult s; lastResult := v; tt := tt s; book := book s; hist := hist s; outFree := outFree s; outBuf := outBuf s; outErr := outErr s; outLines := outLines s; clock := clock s; srch := srch s; senders := senders s; timers := timers s; ntimers := ntimers s; starts := starts s; results := results s; trace := trace s |}.
 Definition set_tt (v : bool) (s : state) : state :=
-  {| cfgTT := cfgTT s; cfgBook := cfgBook s; cfgBookOk := cfgBookOk s; calls := calls s; done := done s; cpcv := cpcv s; cidx := cidx s; runFree := runFree s; initFree := initFree s; panicked := panicked s; toks := toks s; stopPtr := stopPtr s; timeLimit := timeLimit s; extraTime := extraTime s; limitsVar := limitsVar s; curPos := curPos s; hasResult := hasResult s; lastResult := lastResult s; tt := v; book := book s; hist := hist s; outFree := outFree s; outBuf := outBuf s; outErr := outErr s; outLines := outLines s; clock := clock s; srch := srch s; timers := timers s; ntimers := ntimers s; starts := starts s; results := results s; trace := trace s |}.
+  {| cfgTT := cfgTT s; cfgBook := cfgBook s; cfgBookOk := cfgBookOk s; calls := calls s; done := done s; cpcv := cpcv s; cidx := cidx s; runFree := runFree s; initFree := initFree s; panicked := panicked s; toks := toks s; stopPtr := stopPtr s; timeLimit := timeLimit s; extraTime := extraTime s; limitsVar := limitsVar s; curPos := curPos s; hasResult := hasResult s; lastResult := lastResult s; tt := v; book := book s; hist := hist s; outFree := outFree s; outBuf := outBuf s; outErr := outErr s; outLines := outLines s; clock := clock s; srch := srch s; senders := senders s; timers := timers s; ntimers := ntimers s; starts := starts s; results := results s; trace := trace s |}.
 Definition set_book (v : bool) (s : state) : state :=
-  {| cfgTT := cfgTT s; cfgBook := cfgBook s; cfgBookOk := cfgBookOk s; calls := calls s; done := done s; cpcv := cpcv s; cidx := cidx s; runFree := runFree s; initFree := initFree s; panicked := panicked s; toks := toks s; stopPtr := stopPtr s; timeLimit := timeLimit s; extraTime := extraTime s; limitsVar := limitsVar s; curPos := curPos s; hasResult := hasResult s; lastResult := lastResult s; tt := tt s; book := v; hist := hist s; outFree := outFree s; outBuf := outBuf s; outErr := outErr s; outLines := outLines s; clock := clock s; srch := srch s; timers := timers s; ntimers := ntimers s; starts := starts s; results := results s; trace := trace s |}.
+  {| cfgTT := cfgTT s; cfgBook := cfgBook s; cfgBookOk := cfgBookOk s; calls := calls s; done := done s; cpcv := cpcv s; cidx := cidx s; runFree := runFree s; initFree := initFree s; panicked := panicked s; toks := toks s; stopPtr := stopPtr s; timeLimit := timeLimit s; extraTime := extraTime s; limitsVar := limitsVar s; curPos := curPos s; hasResult := hasResult s; lastResult := lastResult s; tt := tt s; book := v; hist := hist s; outFree := outFree s; outBuf := outBuf s; outErr := outErr s; outLines := outLines s; clock := clock s; srch := srch s; senders := senders s; timers := timers s; ntimers := ntimers s; starts := starts s; results := results s; trace := trace s |}.
 Definition set_hist (v : nat) (s : state) : state :=
-  {| cfgTT := cfgTT s; cfgBook := cfgBook s; cfgBookOk := cfgBookOk s; calls := calls s; done := done s; cpcv := cpcv s; cidx := cidx s; runFree := runFree s; initFree := initFree s; panicked := panicked s; toks := toks s; stopPtr := stopPtr s; timeLimit := timeLimit s; extraTime := extraTime s; limitsVar := limitsVar s; curPos := curPos s; hasResult := hasResult s; lastResult := lastResult s; tt := tt s; book := book s; hist := v; outFree := outFree s; outBuf := outBuf s; outErr := outErr s; outLines := outLines s; clock := clock s; srch := srch s; timers := timers s; ntimers := ntimers s; starts := starts s; results := results s; trace := trace s |}.
+  {| cfgTT := cfgTT s; cfgBook := cfgBook s; cfgBookOk := cfgBookOk s; calls := calls s; done := done s; cpcv := cpcv s; cidx := cidx s; runFree := runFree s; initFree := initFree s; panicked := panicked s; toks := toks s; stopPtr := stopPtr s; timeLimit := timeLimit s; extraTime := extraTime s; limitsVar := limitsVar s; curPos := curPos s; hasResult := hasResult s; lastResult := lastResult s; tt := tt s; book := book s; hist := v; outFree := outFree s; outBuf := outBuf s; outErr := outErr s; outLines := outLines s; clock := clock s; srch := srch s; senders := senders s; timers := timers s; ntimers := ntimers s; starts := starts s; results := results s; trace := trace s |}.
 Definition set_outFree (v : bool) (s : state) : state :=
-  {| cfgTT := cfgTT s; cfgBook := cfgBook s; cfgBookOk := cfgBookOk s; calls := calls s; done := done s; cpcv := cpcv s; cidx := cidx s; runFree := runFree s; initFree := initFree s; panicked := panicked s; toks := toks s; stopPtr := stopPtr s; timeLimit := timeLimit s; extraTime := extraTime s; limitsVar := limitsVar s; curPos := curPos s; hasResult := hasResult s; lastResult := lastResult s; tt := tt s; book := book s; hist := hist s; outFree := v; outBuf := outBuf s; outErr := outErr s; outLines := outLines s; clock := clock s; srch := srch s; timers := timers s; ntimers := ntimers s; starts := starts s; results := results s; trace := trace s |}.
+  {| cfgTT := cfgTT s; cfgBook := cfgBook s; cfgBookOk := cfgBookOk s; calls := calls s; done := done s; cpcv := cpcv s; cidx := cidx s; runFree := runFree s; initFree := initFree s; panicked := panicked s; toks := toks s; stopPtr := stopPtr s; timeLimit := timeLimit s; extraTime := extraTime s; limitsVar := limitsVar s; curPos := curPos s; hasResult := hasResult s; lastResult := lastResult s; tt := tt s; book := book s; hist := hist s; outFree := v; outBuf := outBuf s; outErr := outErr s; outLines := outLines s; clock := clock s; srch := srch s; senders := senders s; timers := timers s; ntimers := ntimers s; starts := starts s; results := results s; trace := trace s |}.
 Definition set_outBuf (v : list line) (s : state) : state :=
-  {| cfgTT := cfgTT s; cfgBook := cfgBook s; cfgBookOk := cfgBookOk s; calls := calls s; done := done s; cpcv := cpcv s; cidx := cidx s; runFree := runFree s; initFree := initFree s; panicked := panicked s; toks := toks s; stopPtr := stopPtr s; timeLimit := timeLimit s; extraTime := extraTime s; limitsVar := limitsVar s; curPos := curPos s; hasResult := hasResult s; lastResult := lastResult s; tt := tt s; book := book s; hist := hist s; outFree := outFree s; outBuf := v; outErr := outErr s; outLines := outLines s; clock := clock s; srch := srch s; timers := timers s; ntimers := ntimers s; starts := starts s; results := results s; trace := trace s |}.
+  {| cfgTT := cfgTT s; cfgBook := cfgBook s; cfgBookOk := cfgBookOk s; calls := calls s; done := done s; cpcv := cpcv s; cidx := cidx s; runFree := runFree s; initFree := initFree s; panicked := panicked s; toks := toks s; stopPtr := stopPtr s; timeLimit := timeLimit s; extraTime := extraTime s; limitsVar := limitsVar s; curPos := curPos s; hasResult := hasResult s; lastResult := lastResult s; tt := tt s; book := book s; hist := hist s; outFree := outFree s; outBuf := v; outErr := outErr s; outLines := outLines s; clock := clock s; srch := srch s; senders := senders s; timers := timers s; ntimers := ntimers s; starts := starts s; results := results s; trace := trace s |}.
 Definition set_outErr (v : bool) (s : state) : state :=
-  {| cfgTT := cfgTT s; cfgBook := cfgBook s; cfgBookOk := cfgBookOk s; calls := calls s; done := done s; cpcv := cpcv s; cidx := cidx s; runFree := runFree s; initFree := initFree s; panicked := panicked s; toks := toks s; stopPtr := stopPtr s; timeLimit := timeLimit s; extraTime := extraTime s; limitsVar := limitsVar s; curPos := curPos s; hasResult := hasResult s; lastResult := lastResult s; tt := tt s; book := book s; hist := hist s; outFree := outFree s; outBuf := outBuf s; outErr := v; outLines := outLines s; clock := clock s; srch := srch s; timers := timers s; ntimers := ntimers s; starts := starts s; results := results s; trace := trace s |}.
+  {| cfgTT := cfgTT s; cfgBook := cfgBook s; cfgBookOk := cfgBookOk s; calls := calls s; done := done s; cpcv := cpcv s; cidx := cidx s; runFree := runFree s; initFree := initFree s; panicked := panicked s; toks := toks s; stopPtr := stopPtr s; timeLimit := timeLimit s; extraTime := extraTime s; limitsVar := limitsVar s; curPos := curPos s; hasResult := hasResult s; lastResult := lastResult s; tt := tt s; book := book s; hist := hist s; outFree := outFree s; outBuf := outBuf s; outErr := v; outLines := outLines s; clock := clock s; srch := srch s; senders := senders s; timers := timers s; ntimers := ntimers s; starts := starts s; results := results s; trace := trace s |}.
 Definition set_outLines (v : list line) (s : state) : state :=
-  {| cfgTT := cfgTT s; cfgBook := cfgBook s; cfgBookOk := cfgBookOk s; calls := calls s; done := done s; cpcv := cpcv s; cidx := cidx s; runFree := runFree s; initFree := initFree s; panicked := panicked s; toks := toks s; stopPtr := stopPtr s; timeLimit := timeLimit s; extraTime := extraTime s; limitsVar := limitsVar s; curPos := curPos s; hasResult := hasResult s; lastResult := lastResult s; tt := tt s; book := book s; hist := hist s; outFree := outFree s; outBuf := outBuf s; outErr := outErr s; outLines := v; clock := clock s; srch := srch s; timers := timers s; ntimers := ntimers s; starts := starts s; results := results s; trace := trace s |}.
+  {| cfgTT := cfgTT s; cfgBook := cfgBook s; cfgBookOk := cfgBookOk s; calls := calls s; done := done s; cpcv := cpcv s; cidx := cidx s; runFree := runFree s; initFree := initFree s; panicked := panicked s; toks := toks s; stopPtr := stopPtr s; timeLimit := timeLimit s; extraTime := extraTime s; limitsVar := limitsVar s; curPos := curPos s; hasResult := hasResult s; lastResult := lastResult s; tt := tt s; book := book s; hist := hist s; outFree := outFree s; outBuf := outBuf s; outErr := outErr s; outLines := v; clock := clock s; srch := srch s; senders := senders s; timers := timers s; ntimers := ntimers s; starts := starts s; results := results s; trace := trace s |}.
 Definition set_clock (v : nat) (s : state) : state :=
-  {| cfgTT := cfgTT s; cfgBook := cfgBook s; cfgBookOk := cfgBookOk s; calls := calls s; done := done s; cpcv := cpcv s; cidx := cidx s; runFree := runFree s; initFree := initFree s; panicked := panicked s; toks := toks s; stopPtr := stopPtr s; timeLimit := timeLimit s; extraTime := extraTime s; limitsVar := limitsVar s; curPos := curPos s; hasResult := hasResult s; lastResult := lastResult s; tt := tt s; book := book s; hist := hist s; outFree := outFree s; outBuf := outBuf s; outErr := outErr s; outLines := outLines s; clock := v; srch := srch s; timers := timers s; ntimers := ntimers s; starts := starts s; results := results s; trace := trace s |}.
+  {| cfgTT := cfgTT s; cfgBook := cfgBook s; cfgBookOk := cfgBookOk s; calls := calls s; done := done s; cpcv := cpcv s; cidx := cidx s; runFree := runFree s; initFree := initFree s; panicked := panicked s; toks := toks s; stopPtr := stopPtr s; timeLimit := timeLimit s; extraTime := extraTime s; limitsVar := limitsVar s; curPos := curPos s; hasResult := hasResult s; lastResult := lastResult s; tt := tt s; book := book s; hist := hist s; outFree := outFree s; outBuf := outBuf s; outErr := outErr s; outLines := outLines s; clock := v; srch := srch s; senders := senders s; timers := timers s; ntimers := ntimers s; starts := starts s; results := results s; trace := trace s |}.
 Definition set_srch (v : list sthread) (s : state) : state :=
-  {| cfgTT := cfgTT s; cfgBook := cfgBook s; cfgBookOk := cfgBookOk s; calls := calls s; done := done s; cpcv := cpcv s; cidx := cidx s; runFree := runFree s; initFree := initFree s; panicked := panicked s; toks := toks s; stopPtr := stopPtr s; timeLimit := timeLimit s; extraTime := extraTime s; limitsVar := limitsVar s; curPos := curPos s; hasResult := hasResult s; lastResult := lastResult s; tt := tt s; book := book s; hist := hist s; outFree := outFree s; outBuf := outBuf s; outErr := outErr s; outLines := outLines s; clock := clock s; srch := v; timers := timers s; ntimers := ntimers s; starts := starts s; results := results s; trace := trace s |}.
+  {| cfgTT := cfgTT s; cfgBook := cfgBook s; cfgBookOk := cfgBookOk s; calls := calls s; done := done s; cpcv := cpcv s; cidx := cidx s; runFree := runFree s; initFree := initFree s; panicked := panicked s; toks := toks s; stopPtr := stopPtr s; timeLimit := timeLimit s; extraTime := extraTime s; limitsVar := limitsVar s; curPos := curPos s; hasResult := hasResult s; lastResult := lastResult s; tt := tt s; book := book s; hist := hist s; outFree := outFree s; outBuf := outBuf s; outErr := outErr s; outLines := outLines s; clock := clock s; srch := v; senders := senders s; timers := timers s; ntimers := ntimers s; starts := starts s; results := results s; trace := trace s |}.
+Definition set_senders (v : list sthread) (s : state) : state :=
+  {| cfgTT := cfgTT s; cfgBook := cfgBook s; cfgBookOk := cfgBookOk s; calls := calls s; done := done s; cpcv := cpcv s; cidx := cidx s; runFree := runFree s; initFree := initFree s; panicked := panicked s; toks := toks s; stopPtr := stopPtr s; timeLimit := timeLimit s; extraTime := extraTime s; limitsVar := limitsVar s; curPos := curPos s; hasResult := hasResult s; lastResult := lastResult s; tt := tt s; book := book s; hist := hist s; outFree := outFree s; outBuf := outBuf s; outErr := outErr s; outLines := outLines s; clock := clock s; srch := srch s; senders := v; timers := timers s; ntimers := ntimers s; starts := starts s; results := results s; trace := trace s |}.
 Definition set_timers (v : list tthread) (s : state) : state :=
-  {| cfgTT := cfgTT s; cfgBook := cfgBook s; cfgBookOk := cfgBookOk s; calls := calls s; done := done s; cpcv := cpcv s; cidx := cidx s; runFree := runFree s; initFree := initFree s; panicked := panicked s; toks := toks s; stopPtr := stopPtr s; timeLimit := timeLimit s; extraTime := extraTime s; limitsVar := limitsVar s; curPos := curPos s; hasResult := hasResult s; lastResult := lastResult s; tt := tt s; book := book s; hist := hist s; outFree := outFree s; outBuf := outBuf s; outErr := outErr s; outLines := outLines s; clock := clock s; srch := srch s; timers := v; ntimers := ntimers s; starts := starts s; results := results s; trace := trace s |}.
+  {| cfgTT := cfgTT s; cfgBook := cfgBook s; cfgBookOk := cfgBookOk s; calls := calls s; done := done s; cpcv := cpcv s; cidx := cidx s; runFree := runFree s; initFree := initFree s; panicked := panicked s; toks := toks s; stopPtr := stopPtr s; timeLimit := timeLimit s; extraTime := extraTime s; limitsVar := limitsVar s; curPos := curPos s; hasResult := hasResult s; lastResult := lastResult s; tt := tt s; book := book s; hist := hist s; outFree := outFree s; outBuf := outBuf s; outErr := outErr s; outLines := outLines s; clock := clock s; srch := srch s; senders := senders s; timers := v; ntimers := ntimers s; starts := starts s; results := results s; trace := trace s |}.
 Definition set_ntimers (v : nat) (s : state) : state :=
-  {| cfgTT := cfgTT s; cfgBook := cfgBook s; cfgBookOk := cfgBookOk s; calls := calls s; done := done s; cpcv := cpcv s; cidx := cidx s; runFree := runFree s; initFree := initFree s; panicked := panicked s; toks := toks s; stopPtr := stopPtr s; timeLimit := timeLimit s; extraTime := extraTime s; limitsVar := limitsVar s; curPos := curPos s; hasResult := hasResult s; lastResult := lastResult s; tt := tt s; book := book s; hist := hist s; outFree := outFree s; outBuf := outBuf s; outErr := outErr s; outLines := outLines s; clock := clock s; srch := srch s; timers := timers s; ntimers := v; starts := starts s; results := results s; trace := trace s |}.
+  {| cfgTT := cfgTT s; cfgBook := cfgBook s; cfgBookOk := cfgBookOk s; calls := calls s; done := done s; cpcv := cpcv s; cidx := cidx s; runFree := runFree s; initFree := initFree s; panicked := panicked s; toks := toks s; stopPtr := stopPtr s; timeLimit := timeLimit s; extraTime := extraTime s; limitsVar := limitsVar s; curPos := curPos s; hasResult := hasResult s; lastResult := lastResult s; tt := tt s; book := book s; hist := hist s; outFree := outFree s; outBuf := outBuf s; outErr := outErr s; outLines := outLines s; clock := clock s; srch := srch s; senders := senders s; timers := timers s; ntimers := v; starts := starts s; results := results s; trace := trace s |}.
 Definition set_starts (v : list (nat * nat * limits)) (s : state) : state :=
-  {| cfgTT := cfgTT s; cfgBook := cfgBook s; cfgBookOk := cfgBookOk s; calls := calls s; done := done s; cpcv := cpcv s; cidx := cidx s; runFree := runFree s; initFree := initFree s; panicked := panicked s; toks := toks s; stopPtr := stopPtr s; timeLimit := timeLimit s; extraTime := extraTime s; limitsVar := limitsVar s; curPos := curPos s; hasResult := hasResult s; lastResult := lastResult s; tt := tt s; book := book s; hist := hist s; outFree := outFree s; outBuf := outBuf s; outErr := outErr s; outLines := outLines s; clock := clock s; srch := srch s; timers := timers s; ntimers := ntimers s; starts := v; results := results s; trace := trace s |}.
+  {| cfgTT := cfgTT s; cfgBook := cfgBook s; cfgBookOk := cfgBookOk s; calls := calls s; done := done s; cpcv := cpcv s; cidx := cidx s; runFree := runFree s; initFree := initFree s; panicked := panicked s; toks := toks s; stopPtr := stopPtr s; timeLimit := timeLimit s; extraTime := extraTime s; limitsVar := limitsVar s; curPos := curPos s; hasResult := hasResult s; lastResult := lastResult s; tt := tt s; book := book s; hist := hist s; outFree := outFree s; outBuf := outBuf s; outErr := outErr s; outLines := outLines s; clock := clock s; srch := srch s; senders := senders s; timers := timers s; ntimers := ntimers s; starts := v; results := results s; trace := trace s |}.
 Definition set_results (v : list (nat * reason)) (s : state) : state :=
-  {| cfgTT := cfgTT s; cfgBook := cfgBook s; cfgBookOk := cfgBookOk s; calls := calls s; done := done s; cpcv := cpcv s; cidx := cidx s; runFree := runFree s; initFree := initFree s; panicked := panicked s; toks := toks s; stopPtr := stopPtr s; timeLimit := timeLimit s; extraTime := extraTime s; limitsVar := limitsVar s; curPos := curPos s; hasResult := hasResult s; lastResult := lastResult s; tt := tt s; book := book s; hist := hist s; outFree := outFree s; outBuf := outBuf s; outErr := outErr s; outLines := outLines s; clock := clock s; srch := srch s; timers := timers s; ntimers := ntimers s; starts := starts s; results := v; trace := trace s |}.
+  {| cfgTT := cfgTT s; cfgBook := cfgBook s; cfgBookOk := cfgBookOk s; calls := calls s; done := done s; cpcv := cpcv s; cidx := cidx s; runFree := runFree s; initFree := initFree s; panicked := panicked s; toks := toks s; stopPtr := stopPtr s; timeLimit := timeLimit s; extraTime := extraTime s; limitsVar := limitsVar s; curPos := curPos s; hasResult := hasResult s; lastResult := lastResult s; tt := tt s; book := book s; hist := hist s; outFree := outFree s; outBuf := outBuf s; outErr := outErr s; outLines := outLines s; clock := clock s; srch := srch s; senders := senders s; timers := timers s; ntimers := ntimers s; starts := starts s; results := v; trace := trace s |}.
 Definition set_trace (v : list event) (s : state) : state :=
-  {| cfgTT := cfgTT s; cfgBook := cfgBook s; cfgBookOk := cfgBookOk s; calls := calls s; done := done s; cpcv := cpcv s; cidx := cidx s; runFree := runFree s; initFree := initFree s; panicked := panicked s; toks := toks s; stopPtr := stopPtr s; timeLimit := timeLimit s; extraTime := extraTime s; limitsVar := limitsVar s; curPos := curPos s; hasResult := hasResult s; lastResult := lastResult s; tt := tt s; book := book s; hist := hist s; outFree := outFree s; outBuf := outBuf s; outErr := outErr s; outLines := outLines s; clock := clock s; srch := srch s; timers := timers s; ntimers := ntimers s; starts := starts s; results := results s; trace := v |}.
+  {| cfgTT := cfgTT s; cfgBook := cfgBook s; cfgBookOk := cfgBookOk s; calls := calls s; done := done s; cpcv := cpcv s; cidx := cidx s; runFree := runFree s; initFree := initFree s; panicked := panicked s; toks := toks s; stopPtr := stopPtr s; timeLimit := timeLimit s; extraTime := extraTime s; limitsVar := limitsVar s; curPos := curPos s; hasResult := hasResult s; lastResult := lastResult s; tt := tt s; book := book s; hist := hist s; outFree := outFree s; outBuf := outBuf s; outErr := outErr s; outLines := outLines s; clock := clock s; srch := srch s; senders := senders s; timers := timers s; ntimers := ntimers s; starts := starts s; results := results s; trace := v |}.
 
 (** ** Helpers *)
 
@@ -373,8 +403,9 @@ Definition cstep (s : state) : option state :=
   | None => None                                     (* all calls done *)
   | Some c =>
     match cpcv s with
-    | CIdle =>                                       (* uci.go:204 dispatch; no shared access *)
-        Some (s |> set_cpcv (match c with
+    | CIdle =>                                       (* uci.go:204 dispatch; no shared access; ghost: ECall *)
+        Some (s |> emit (ECall (cidx s))
+                |> set_cpcv (match c with
                             | CStart _ => CStTry
                             | CStop | CNewGame => CSpPtr
                             | CWait => CWAcq
@@ -572,17 +603,27 @@ Definition sstep (s : state) (th : sthread) (c : choice) : option state :=
   | SLastRes, Go => goto_s SHasRes1 th (s |> set_lastResult (sid th))            (* 380 *)
   | SHasRes1, Go => goto_s SEndPtr th (s |> set_hasResult true)                  (* 381 *)
   | SEndPtr, Go => goto_s (SEndStore (stopPtr s)) th s                           (* 386 *)
-  | SEndStore p, Go => goto_s SRes0 th (s |> set_toks (tok_set p REnd (toks s))) (* 386 *)
-  | SRes0, Go => if outFree s then goto_s SRes1 th (s |> set_outFree false) else None     (* 390, 758-761, uci.go:163-171, 655 Lock *)
-  | SRes1, Go =>                                                                 (* uci.go:658; the line is handed over here *)
-      goto_s SRes2 th (out_stage1 (LBest (sid th)) s
-                       |> set_results ((sid th, result_reason th) :: results s)
-                       |> emit (EResult (sid th)))
-  | SRes2, Go => let (s', k) := out_stage2 s in goto_s (SRes3 k) th s'           (* uci.go:659 *)
-  | SRes3 k, Go => goto_s SRes4 th (out_stage3 k s)
-  | SRes4, Go => goto_s SRelRun th (rel_out s)                                   (* uci.go:656 Unlock *)
-  | SRelRun, Go => Some (rel_run s |> set_srch (del_s (sid th) (srch s)))        (* 277; goroutine ends *)
+  | SEndStore p, Go => goto_s SRelRun th (s |> set_toks (tok_set p REnd (toks s))) (* stopFlag.Store(true) at the end of run *)
+  | SRelRun, Go =>                                                               (* released = true; isRunning.Release(1) *)
+      Some (rel_run s |> set_srch (del_s (sid th) (srch s)) |> set_senders (set_spc SRes0 th :: senders s))
   | _, _ => None
+  end.
+
+(** ** Search goroutine after its Release: sendResult (search.go sendResult, uci.go:163-171, send 655-659) *)
+
+Definition upd_n (th : sthread) (s : state) : state := s |> set_senders (put_s th (senders s)).
+
+Definition nstep (s : state) (th : sthread) : option state :=
+  match spcv th with
+  | SRes0 => if outFree s then Some (upd_n (set_spc SRes1 th) (s |> set_outFree false)) else None    (* uci.go:655 Lock *)
+  | SRes1 =>                                                                     (* uci.go:658; the line is handed over here *)
+      Some (upd_n (set_spc SRes2 th) (out_stage1 (LBest (sid th)) s
+                                      |> set_results ((sid th, result_reason th) :: results s)
+                                      |> emit (EResult (sid th))))
+  | SRes2 => let (s', k) := out_stage2 s in Some (upd_n (set_spc (SRes3 k) th) s')    (* uci.go:659 *)
+  | SRes3 k => Some (upd_n (set_spc SRes4 th) (out_stage3 k s))
+  | SRes4 => Some (rel_out s |> set_senders (del_s (sid th) (senders s)))          (* uci.go:656 Unlock; goroutine ends *)
+  | _ => None
   end.
 
 (** ** Timer goroutine steps (search.go:718-734) *)
@@ -624,7 +665,14 @@ Definition step (s : state) (t : tid) : option state :=
   if panicked s then None else
   match t with
   | TCtl => cstep s
-  | TSearch n c => match find_s n (srch s) with Some th => sstep s th c | None => None end
+  | TSearch n c =>
+      match find_s n (srch s) with
+      | Some th => sstep s th c
+      | None => match find_s n (senders s), c with
+                | Some th, Go => nstep s th
+                | _, _ => None
+                end
+      end
   | TTimer k => match find_t k (timers s) with Some th => tstep s th | None => None end
   | TTick => Some (s |> set_clock (S (clock s)))
   end.
@@ -647,7 +695,7 @@ Definition init (ctt cbook cbookok : bool) (cs : list call) : state :=
      tt := false; book := false; hist := 0;
      outFree := true; outBuf := []; outErr := false; outLines := [];
      clock := 0;
-     srch := []; timers := []; ntimers := 0;
+     srch := []; senders := []; timers := []; ntimers := 0;
      starts := []; results := []; trace := [] |}.
 
 Definition is_init (s0 : state) : Prop := exists a b c cs, s0 = init a b c cs.
@@ -719,7 +767,14 @@ Definition taccess (th : tthread) : option access :=
 Definition access_of (s : state) (t : tid) : option access :=
   match t with
   | TCtl => caccess s
-  | TSearch n c => match find_s n (srch s) with Some th => saccess s th c | None => None end
+  | TSearch n c =>
+      match find_s n (srch s) with
+      | Some th => saccess s th c
+      | None => match find_s n (senders s), c with
+                | Some th, Go => saccess s th Go
+                | _, _ => None
+                end
+      end
   | TTimer k => match find_t k (timers s) with Some th => taccess th | None => None end
   | TTick => None
   end.
@@ -754,10 +809,10 @@ Definition race_at (s : state) (t1 t2 : tid) (v : var) : Prop :=
     [accepts cfg.. calls trace] = true iff [trace] (events in real-time order, oldest first) is an observable
     behaviour of the model for [calls]: a breadth-first search over all schedules, with the set of model states
     compatible with the trace prefix read so far (states are identified by a key that omits ghost data and the
-    OutIo buffer, which never influence events).  Bounds of the search: the clock only ticks while some timer
+    OutIo buffer, which never influence events; local steps - see [c_local], [s_local] - are executed eagerly).  Bounds of the search: the clock only ticks while some timer
     still waits for its limit; [Info] steps (no event, OutIo only) are not scheduled; [fuel] bounds the number
-    of states expanded (exhaustion => false).  [ETimerFired] events of the model that the trace does not
-    mention are treated as silent. *)
+    of states expanded (exhaustion => false).  [ETimerFired] and [ECall] events of the model that the
+    trace does not mention at that point are treated as silent. *)
 From Coq Require Import FSets.FSetPositive PArith.
 
 Fixpoint unary (n : nat) (p : positive) : positive :=
@@ -771,7 +826,7 @@ Definition ev_code (e : event) : list nat :=
   | EStartReturned n => [0; n] | EStartRejected => [1] | EStartDone => [2] | EResult n => [3; n]
   | EStopReturned => [4] | EReadyOk => [5] | EIsSearching b => [6; b2n b] | ETimerFired n => [7; n]
   | EWaitReturned => [8] | ENewGameReturned => [9] | EPonderHitReturned => [10]
-  | EClearHash b => [11; b2n b] | EResizeHash b => [12; b2n b]
+  | EClearHash b => [11; b2n b] | EResizeHash b => [12; b2n b] | ECall i => [13; i]
   end.
 Definition oev_code (e : option event) : list nat :=
   match e with None => [0] | Some e => 1 :: ev_code e end.
@@ -816,6 +871,7 @@ Definition key (s : state) : positive :=
        ++ map (fun x => match x with None => 0 | Some _ => 1 end) (toks s)
        ++ [2] ++ match limitsVar s with None => [0] | Some l => 1 :: lim_code l end
        ++ [length (srch s)] ++ flat_map sth_code (srch s)
+       ++ [length (senders s)] ++ flat_map sth_code (senders s)
        ++ [length (timers s)] ++ flat_map tth_code (timers s)).
 
 (* the thread ids worth scheduling in [s] *)
@@ -830,6 +886,7 @@ Definition timer_waits (s : state) (th : tthread) : bool :=
 Definition cand_tids (s : state) : list tid :=
   TCtl :: flat_map (fun th => [TSearch (sid th) Go; TSearch (sid th) Finish; TSearch (sid th) Nodes;
                                TSearch (sid th) Extra]) (srch s)
+       ++ map (fun th => TSearch (sid th) Go) (senders s)
        ++ map (fun th => TTimer (tmid th)) (timers s)
        ++ (if existsb (timer_waits s) (timers s) then [TTick] else []).
 
@@ -838,7 +895,8 @@ Definition ev_match (observed model : event) : bool :=
   | EStartDone, EStartReturned _ | EStartDone, EStartRejected => true
   | _, _ => match list_eq_dec Nat.eq_dec (ev_code observed) (ev_code model) with left _ => true | right _ => false end
   end.
-Definition is_timer_ev (e : event) : bool := match e with ETimerFired _ => true | _ => false end.
+(* events of the model that a trace may omit *)
+Definition is_timer_ev (e : event) : bool := match e with ETimerFired _ | ECall _ => true | _ => false end.
 
 (* successors of [s]: silent ones and those emitting an event matching [expect] *)
 Fixpoint succs (s : state) (expect : option event) (ts : list tid) (silent hit : list state)
@@ -863,6 +921,41 @@ Fixpoint succs (s : state) (expect : option event) (ts : list tid) (silent hit :
     end
   end.
 
+(* partial-order reduction used by the checker only: a step is "local" when it emits no event and commutes with
+   every step of every other goroutine (plain accesses to variables nobody else can write at that point, steps
+   inside the sendLock critical section, dispatch); local steps are executed eagerly *)
+Definition c_local (p : cpc) : bool :=
+  match p with
+  | CStPos | CStLim | CStTok | CSpPtr | CNgTT | CNgHist | CPhLim | CPhPtr | CInBook | CInBookW | CInTT
+  | CInTTW | CChTT | CRzNil | CRzTT | CSend2 _ | CSend3 _ _ => true
+  | CSend1 LReady _ => false
+  | CSend1 _ _ => true
+  | _ => false
+  end.
+Definition s_local (p : spc) : bool :=
+  match p with
+  | SHasRes0 | SInBook | SInBookW | SInTT | SInTTW | SLimTimer | STimerPtr | SBook | STTAge | SHist | SPollPtr
+  | SNodesPtr | SPoll2Ptr | SNodeTT | SNodeHist | SInfo1 | SInfo2 | SInfo3 _ | SExtra1 | SExtra2 _ | SWaitLim
+  | SWaitPtr | SLastRes | SHasRes1 | SEndPtr | SRes2 | SRes3 _ => true
+  | _ => false
+  end.
+Definition local_tid (s : state) : option tid :=
+  match calls s with
+  | _ :: _ => if c_local (cpcv s) then Some TCtl else
+              match find (fun th => s_local (spcv th)) (srch s ++ senders s) with
+              | Some th => Some (TSearch (sid th) Go) | None => None end
+  | [] => match find (fun th => s_local (spcv th)) (srch s ++ senders s) with
+          | Some th => Some (TSearch (sid th) Go) | None => None end
+  end.
+Fixpoint norm (fuel : nat) (s : state) : state :=
+  match fuel with
+  | 0 => s
+  | S f => match local_tid s with
+           | Some t => match step s t with Some s' => norm f s' | None => s end
+           | None => s
+           end
+  end.
+
 (* closure under silent steps (depth first, states identified by [key]); collects the states reached by
    the expected event.  None = fuel exhausted. *)
 Fixpoint closure (expect : option event) (fuel : nat) (work : list state) (seen : PositiveSet.t)
@@ -876,7 +969,7 @@ Fixpoint closure (expect : option event) (fuel : nat) (work : list state) (seen 
       let k := key s in
       if PositiveSet.mem k seen then closure expect fuel' rest seen hits
       else let (sil, hit) := succs s expect (cand_tids s) [] [] in
-           closure expect fuel' (sil ++ rest) (PositiveSet.add k seen) (hit ++ hits)
+           closure expect fuel' (map (norm 64) sil ++ rest) (PositiveSet.add k seen) (map (norm 64) hit ++ hits)
     end
   end.
 
@@ -890,7 +983,7 @@ Fixpoint accepts_from (fuel : nat) (front : list state) (tr : list event) : bool
   end.
 
 Definition accepts_fuel (fuel : nat) (ctt cbook cbookok : bool) (cs : list call) (tr : list event) : bool :=
-  accepts_from fuel [init ctt cbook cbookok cs] tr.
+  accepts_from fuel [norm 64 (init ctt cbook cbookok cs)] tr.
 Definition accepts (ctt cbook cbookok : bool) (cs : list call) (tr : list event) : bool :=
   accepts_fuel (300 * 1000) ctt cbook cbookok cs tr.
 Definition accepts_default (cs : list call) (tr : list event) : bool := accepts true false false cs tr.
